@@ -292,6 +292,30 @@ def drop_mandatory(rng, T, v):
     return None
 
 
+def duplicated_member(rng, T, v):
+    """Encodings of a record in which one member's TLV is replaced by a copy of another member's - as many members
+    as declared, one of them missing - in definite and in indefinite length form; also with a member simply left
+    out in indefinite form."""
+    Bt = U.base_of(T)
+    if T[0] not in ('seq', 'set') or not isinstance(v, dict):
+        return []
+    try:
+        e = R.der(T, v)
+        top = R.parse_one(e, 0)
+    except Exception:
+        return []
+    kids = [e[c.start:c.end] for c in top.children or ()]
+    if len(kids) < 2:
+        return []
+    i, j = rng.sample(range(len(kids)), 2)
+    out = []
+    head = R.ident('U', 16 if T[0] == 'seq' else 17, True)
+    for contents in (b''.join(kids[:i] + [kids[j]] + kids[i + 1:]), b''.join(kids[:i] + kids[i + 1:])):
+        out.append(head + R.length_min(len(contents)) + contents)
+        out.append(head + b'\x80' + contents + b'\x00\x00')
+    return out
+
+
 # ------------------------------------------------------------------ the oracle
 
 def check_input(res, T, cons, schema, data, origin, dname, feats0):
@@ -554,6 +578,8 @@ def run_case(res, rng, tier):
             inputs.append(('neighbour-missing-mandatory', R.der(T, dm)))
         except Exception:
             pass
+    for data in duplicated_member(rng, T, v):
+        inputs.append(('neighbour-duplicated-member', data))
     for origin, data in list(inputs):
         for _ in range(2):
             inputs.append(('mutated-' + origin.split('-')[0], C.mutate(rng, data)[1]))
